@@ -230,6 +230,61 @@ func run(thorough bool) func(shard, shards int, deadline time.Time) *explore.Res
 					}
 				}
 				rec(0, base, nil)
+				// ---- half 1c: the chain name written into the claim is not hashed and not executed, but it selects how the
+				// claim's own address fields are read. The product is repeated over {this chain, another EVM chain, the chain with
+				// the other address format} x every address value in both formats (same 20 bytes): claims that pass ValidateBasic
+				// and share a hash must still agree on every executed field as written
+				{
+					otherFmt, otherEvm := "tron", "bsc"
+					if chain == "tron" {
+						otherFmt = "eth"
+					}
+					if chain == "bsc" {
+						otherEvm = "eth"
+					}
+					alt := map[string]string{}
+					for _, l := range []string{"c2", "callee", "d2", "depositor", "fx-token", "o2", "origin", "other-token", "refund", "tok2"} {
+						alt[scen.ExtAddr(chain, l)] = scen.ExtAddr(otherFmt, l)
+					}
+					saved := dom
+					dom = map[string][]interface{}{}
+					for f, vs := range saved {
+						if f == "BlockHeight" || f == "EventNonce" { // kept at the baseline: they do not interact with address formats
+							dom[f] = vs[:1]
+							continue
+						}
+						out := append([]interface{}(nil), vs[:min(2, len(vs))]...)
+						for _, v := range vs[:min(2, len(vs))] {
+							switch x := v.(type) {
+							case string:
+								if y, ok := alt[x]; ok {
+									out = append(out, y)
+								}
+							case []string:
+								var ys []string
+								for _, e := range x {
+									ys = append(ys, alt[e])
+								}
+								if len(ys) > 0 {
+									out = append(out, ys)
+								}
+							}
+						}
+						dom[f] = out
+					}
+					dom["ChainName"] = []interface{}{chain, otherEvm, otherFmt}
+					savedFields := fields
+					fields = nil
+					for f := range dom {
+						fields = append(fields, f)
+					}
+					sort.Strings(fields)
+					savedBuckets := buckets
+					buckets = map[string][]entry{}
+					rec(0, base, nil)
+					res.Counters["hash-buckets-with-chain-name-variants/"+typ] += len(buckets)
+					dom, fields, buckets = saved, savedFields, savedBuckets
+				}
 				// ---- half 1b: every pair of fields over the extended (shift-closed) domains, the other fields at
 				// the baseline: finds collisions that need two fields to change together (a digit or byte moving
 				// across a field boundary of the hashed string)
